@@ -1,6 +1,7 @@
 import GdslModel.Lemmas.Serde
 import GdslModel.Lemmas.Extra
 import GdslModel.Lemmas.Json
+import GdslModel.Lemmas.Cbor
 /-!
 # C12 — serialisation round-trips
 `decompose s nval π` is what `Serialize` writes for a container whose hash map iterates in order
@@ -75,5 +76,27 @@ theorem Json.roundtrip_bytes (s : Store Nat Nat) (nval : Nat → Int) (π : List
 
 example : Json.parse (Json.print ([(0, -3), (7, 12)], [(0, 7, 4000000000), (7, 7, 0)])) =
     some ([(0, -3), (7, 12)], [(0, 7, 4000000000), (7, 7, 0)]) := by decide +kernel
+
+/-! ## byte level (CBOR)
+`Model/Cbor.lean` is the byte-level model of `serde_cbor` for the same document type: `Cbor.print` is what
+`serde_cbor::to_vec` writes (definite lengths, shortest integers), `Cbor.parse` what `serde_cbor::from_slice` accepts
+(any integer width, indefinite-length arrays, tags skipped, recursion budget 128). -/
+
+/-- what is written parses back to exactly the document, for every document whose payloads fit their types
+    (and whose two lists have fewer than 2^64 entries, so that their lengths fit an array head) -/
+theorem Cbor.parse_print (d : Cbor.Doc) (h : Json.InRange d) (hl : d.1.length < 2 ^ 64 ∧ d.2.length < 2 ^ 64) :
+    Cbor.parse (Cbor.print d) = some d :=
+  Cbor.parse_print' d h hl
+
+/-- the whole round trip at byte level through CBOR -/
+theorem Cbor.roundtrip_bytes (s : Store Nat Nat) (nval : Nat → Int) (π : List Nat) (hnd : π.Nodup)
+    (hclosed : ∀ k ∈ π, ∀ p ∈ (s.get k).out, p.1 ∈ π) (hr : Json.InRange (decompose s nval π))
+    (hl : (decompose s nval π).1.length < 2 ^ 64 ∧ (decompose s nval π).2.length < 2 ^ 64) :
+    ∃ s', Cbor.deCbor (Cbor.serCbor s nval π) = some (π.map (fun k => (k, nval k)), s') ∧
+      (∀ k ∈ π, (s'.get k).out = (s.get k).out) ∧ Mirror s' :=
+  Cbor.roundtrip_bytes' s nval π hnd hclosed hr hl
+
+example : Cbor.parse (Cbor.print ([(0, -3), (7, 12), (300, -70000)], [(0, 7, 4000000000), (7, 7, 0), (300, 0, 24)])) =
+    some ([(0, -3), (7, 12), (300, -70000)], [(0, 7, 4000000000), (7, 7, 0), (300, 0, 24)]) := by decide +kernel
 
 end G
